@@ -54,6 +54,7 @@ type FuncContract struct {
 	Ensures  []*Clause
 	Axioms   []*Clause
 	Lemmas   []*Clause
+	Defines_ []*Clause // ghost definitions: "defines[g1,g2] expr" - the ghost update performed at return
 	Modifies []string
 	HasMod   bool
 	Loops    map[int]*LoopContract
@@ -115,14 +116,15 @@ type DB struct {
 	fields  map[string]*FieldAnn
 	locks   map[string]*LockAnn
 	files   []string
+	modsets map[string][]string
 }
 
 func newDB() *DB {
 	return &DB{funcs: map[string]*FuncContract{}, ghosts: map[string]*GhostVar{}, defines: map[string]*Macro{},
-		specs: map[string]*SpecFun{}, fields: map[string]*FieldAnn{}, locks: map[string]*LockAnn{}}
+		specs: map[string]*SpecFun{}, fields: map[string]*FieldAnn{}, locks: map[string]*LockAnn{}, modsets: map[string][]string{}}
 }
 
-var clauseKeywords = map[string]bool{"end": true, "filter": true, "func": true, "iface": true, "extern": true, "ghost": true, "field": true, "lock": true,
+var clauseKeywords = map[string]bool{"defines": true, "modset": true, "end": true, "filter": true, "func": true, "iface": true, "extern": true, "ghost": true, "field": true, "lock": true,
 	"requires": true, "ensures": true, "modifies": true, "loop": true, "define": true, "spec": true, "axiom": true,
 	"let": true, "lemma": true, "assume": true}
 
@@ -266,6 +268,20 @@ func (db *DB) parseClause(text, file string, line int, pkg string, cur **FuncCon
 	switch kw {
 	case "end":
 		*cur = nil
+		return nil
+	case "modset":
+		// modset NAME = item, item, ...   (referenced as @NAME in modifies clauses)
+		eq := strings.Index(rest, "=")
+		if eq < 0 {
+			return fmt.Errorf("modset NAME = items")
+		}
+		var items []string
+		for _, m := range splitTop(rest[eq+1:]) {
+			if m = strings.TrimSpace(m); m != "" {
+				items = append(items, m)
+			}
+		}
+		db.modsets[strings.TrimSpace(rest[:eq])] = items
 		return nil
 	case "func", "iface", "extern":
 		fs := strings.Fields(rest)
@@ -473,6 +489,13 @@ func (db *DB) parseClause(text, file string, line int, pkg string, cur **FuncCon
 	}
 	fc := *cur
 	switch kw {
+	case "defines":
+		// defines[g1,g2] expr : at return the ghost variables g1,g2 are updated such that expr holds
+		c, err := mkClause("defines", rest)
+		if err != nil {
+			return err
+		}
+		fc.Defines_ = append(fc.Defines_, c)
 	case "requires", "ensures", "axiom", "lemma":
 		c, err := mkClause(kw, rest)
 		if err != nil {
@@ -492,6 +515,14 @@ func (db *DB) parseClause(text, file string, line int, pkg string, cur **FuncCon
 		fc.HasMod = true
 		for _, m := range splitTop(rest) {
 			if m = strings.TrimSpace(m); m != "" && m != "nothing" {
+				if strings.HasPrefix(m, "@") {
+					items, ok := db.modsets[m[1:]]
+					if !ok {
+						return fmt.Errorf("unknown modset %s", m)
+					}
+					fc.Modifies = append(fc.Modifies, items...)
+					continue
+				}
 				fc.Modifies = append(fc.Modifies, m)
 			}
 		}
